@@ -4,7 +4,7 @@
      temperature branch), the overwrite on a measurement day and the reset at the start of a run (both totals := 0).
    The frozen branch needs WMIN < WRED in the top layer (the branch that divides by PORGES[0] - W is only taken when
    W + 0.01 < WG < PORGES[0]): that is what C15 establishes (the C15_wred_between theorems). *)
-From Coq Require Import ZArith Reals List Bool Lra Lia.
+From Coq Require Import ZArith Reals List Bool Lra Lia Psatz.
 From Hermes Require Import Num RUtil NitroModel NitroProofs.
 Import ListNotations.
 Local Open Scope R_scope.
@@ -184,4 +184,83 @@ Proof.
   exists {| mg_wred := 2/10; mg_porges0 := 4/10; mg_dsumm := 80; mg_ums := 30; mg_nh4sum := 40; mg_nh4ums := 36;
             mg_n2onitsum := 0; mg_n2onitdaily := 0; mg_minsum := 0 |}.
   unfold totals_inv, nh4_inv. cbn. split; [lra|]. split; [lra|]. intros [_ H]. lra.
+Qed.
+
+(* ---- the N2O counters ---- *)
+Lemma dec_4_1 : @dec R RNum 4 1 = 4 / 10. Proof. unfold dec; cbn; lra. Qed.
+Lemma dec_104_2 : @dec R RNum 104 2 = 104 / 100. Proof. unfold dec; cbn; lra. Qed.
+Lemma dec_16_4 : @dec R RNum 16 4 = 16 / 10000. Proof. unfold dec; cbn; lra. Qed.
+Lemma dec_1_2 : @dec R RNum 1 2 = 1 / 100. Proof. unfold dec; cbn; lra. Qed.
+
+(* the N2O share of nitrification is positive for every water-filled fraction of the pore space in [0,1] *)
+Lemma fn2onit_pos (wg porges : R) : 0 <= wg <= porges -> 0 < porges -> 0 < fn2onit wg porges.
+Proof.
+  intros Hw Hp. unfold fn2onit. rsimp. rewrite dec_4_1, dec_104_2, dec_16_4.
+  set (x := wg / porges).
+  assert (Hx : 0 <= x <= 1).
+  { unfold x. split; [unfold Rdiv; apply Rmult_le_pos; [lra | left; apply Rinv_0_lt_compat; lra]|].
+    apply (Rmult_le_reg_r porges); [lra|]. unfold Rdiv. rewrite Rmult_assoc, Rinv_l by lra. lra. }
+  assert (Hn : 4 / 10 * x - 104 / 100 < 0) by lra.
+  assert (Hd : x - 104 / 100 < 0) by lra.
+  assert (Hq : 0 < (4 / 10 * x - 104 / 100) / (x - 104 / 100)).
+  { replace ((4 / 10 * x - 104 / 100) / (x - 104 / 100)) with ((104 / 100 - 4 / 10 * x) / (104 / 100 - x)) by (field; lra).
+    apply Rdiv_lt_0_compat; lra. }
+  apply Rmult_lt_0_compat; lra.
+Qed.
+
+(* one mineralisation call: the N2O counter does not decrease, and the day's N2O amount is >= 0, while the ammonium pair is in order and the
+   layer's water content does not exceed its pore volume *)
+Lemma mineral_layer_n2o z (l : mineral_layer_in (T:=R)) (g : mineral_glob (T:=R)) :
+  nh4_inv g -> 0 <= ml_wg0 l <= ml_porges l -> 0 < ml_porges l ->
+  let g' := snd (mineral_layer z l g) in
+  mg_n2onitsum g <= mg_n2onitsum g' /\ 0 <= mg_n2onitdaily g'.
+Proof.
+  intros Hn Hw Hp. pose proof (fn2onit_pos (ml_wg0 l) (ml_porges l) Hw Hp) as Hf.
+  unfold nh4_inv in Hn. cbv zeta. unfold mineral_layer.
+  destruct (gtb (ml_tempbo l) zero); cbn [snd mg_n2onitsum mg_n2onitdaily].
+  - (* warm *)
+    match goal with |- context [clamp01 ?m] => pose proof (clamp01_range m) as Hm; set (mired := clamp01 m) in * end.
+    set (f := fn2onit (ml_wg0 l) (ml_porges l)) in *.
+    rsimp.
+    set (dt0 := 4000000000 * ml_e0 l * ml_naos l * mired).
+    set (dm0 := 5600000000000 * ml_e1 l * ml_nfos l * mired).
+    assert (Hdt : 0 <= (if RI.ltb dt0 0 then 0 else dt0)) by (destruct (RI.ltb_spec dt0 0); lra).
+    assert (Hdm : 0 <= (if RI.ltb dm0 0 then 0 else dm0)) by (destruct (RI.ltb_spec dm0 0); lra).
+    assert (Hnh : 0 <= (if Nat.eqb z 1 then dec 4 1 * mired * (mg_nh4sum g - mg_nh4ums g) else 0)).
+    { destruct (Nat.eqb z 1); [|lra]. rewrite dec_4_1. apply Rmult_le_pos; [apply Rmult_le_pos; lra | lra]. }
+    match goal with |- _ <= _ + ?n /\ 0 <= ?n => assert (0 <= n) by (apply Rmult_le_pos; [lra | unfold f in *; lra]) end.
+    split; lra.
+  - (* frozen *)
+    set (f := fn2onit (ml_wg0 l) (ml_porges l)) in *.
+    match goal with |- context [if Nat.eqb z 1 then (if ltb ?m zero then zero else ?m) else zero] =>
+      set (mired := if Nat.eqb z 1 then (if ltb m zero then zero else m) else zero) end.
+    assert (Hm : 0 <= mired).
+    { unfold mired. destruct (Nat.eqb z 1); rsimp; [|lra].
+      match goal with |- 0 <= (if RI.ltb ?m 0 then 0 else ?m) => destruct (RI.ltb_spec m 0); lra end. }
+    rsimp.
+    assert (Hnh : 0 <= (if Nat.eqb z 1 then dec 4 1 * mired * (mg_nh4sum g - mg_nh4ums g) else 0)).
+    { destruct (Nat.eqb z 1); [|lra]. rewrite dec_4_1. apply Rmult_le_pos; [apply Rmult_le_pos; lra | lra]. }
+    match goal with |- _ <= _ + ?n /\ 0 <= ?n => assert (0 <= n) by (apply Rmult_le_pos; [lra | unfold f in *; lra]) end.
+    split; lra.
+Qed.
+
+Definition op4_wet_ok (o : nop4) : Prop :=
+  match o with Op4Mineral z l => 0 <= ml_wg0 l <= ml_porges l /\ 0 < ml_porges l | _ => True end.
+
+Lemma nstep4_n2o g o : nh4_inv g -> op4_wet_ok o -> mg_n2onitsum g <= mg_n2onitsum (nstep4 g o).
+Proof.
+  intros Hn Hw. destruct o as [d a|z l|]; cbn [nstep4 nstep op4_wet_ok] in *.
+  - cbn. lra.
+  - destruct Hw as [Hw Hp]. exact (proj1 (mineral_layer_n2o z l g Hn Hw Hp)).
+  - cbn. lra.
+Qed.
+
+(* over a whole run: the cumulative N2O counter never decreases (so it stays >= 0 from a start at 0) *)
+Lemma run4_n2o ops : forall g, totals_inv g /\ nh4_inv g -> ops4_ok g ops -> Forall op4_wet_ok ops ->
+  mg_n2onitsum g <= mg_n2onitsum (fold_left nstep4 ops g).
+Proof.
+  induction ops as [|o r IH]; intros g Hi Ho Hw; cbn [fold_left]; [lra|].
+  destruct Ho as [H1 H2]. inversion Hw as [|? ? Hw1 Hw2]; subst.
+  pose proof (nstep4_n2o g o (proj2 Hi) Hw1) as Hs.
+  pose proof (IH (nstep4 g o) (nstep4_inv g o Hi H1) H2 Hw2) as Hr. lra.
 Qed.
